@@ -33,7 +33,12 @@ RULE = ('E2 state machine + E1: the state is the legacy switch, observed '
         'per sequence of <= 4 switch settings) follow the ladder of the '
         'current setting; one continuous history with N never-seen integers '
         'between probe and toggle for every N of a dense range. A case is (state, integer, position) or a transition; '
-        'non-trivial = integer outside [-128, 127] or a transition.')
+        'non-trivial = integer outside [-128, 127] or a transition.'
+        ' '
+        'Also: integer-like objects (__index__, not int) through '
+        'every switch sequence, and int subclasses / integer-likes '
+        'through the fixed-width encoders (refused, or held to what '
+        'the int is held to).')
 BOUNDS = {'quick': {'dense_range': '[-70000, 70000]', 'boundary_radius': 2,
                     'toggle_sequences': '6 events ^ 4 x 3 observation modes'},
           'thorough': {'dense_range': '[-70000, 70000]',
